@@ -10,8 +10,8 @@ EVIDENCE_DIR = os.path.join(VERIF, "evidence")
 REPLAY_DIR = os.path.join(VERIF, "replays")
 KNOWN = os.path.join(VERIF, "known_findings.json")
 
-QUICK = {"life": 40, "fy": 16, "chunks": 8, "perm": 1, "alloc": 12, "timeline": 6}
-THOROUGH = {"life": 600, "fy": 80, "chunks": 60, "perm": 8, "alloc": 120, "timeline": 60}
+QUICK = {"deploy": 4, "life": 40, "fy": 16, "chunks": 8, "perm": 1, "alloc": 12, "timeline": 6}
+THOROUGH = {"deploy": 40, "life": 600, "fy": 80, "chunks": 60, "perm": 8, "alloc": 120, "timeline": 60}
 
 
 def job_list(pid, tier, seed):
@@ -62,17 +62,15 @@ def run_job(job):
     for (ep, sched, ok, same) in tr.chunk_results:
         if not same or ok is False:
             res["chunk_mismatch"].append(dict(ep=ep, schedule=sched, completed=ok, same_storage=same, prefix=lines))
-    v = monitors.View(tr)
-    for pid, ms in monitors.MONITORS.items():
-        for m in ms:
-            try:
-                found = m(v)
-            except Exception:
-                res["error"] = "monitor " + pid + ": " + traceback.format_exc()[-800:]
-                found = []
-            for (idx, msg) in found[:3]:
-                res["violations"].setdefault(pid, []).append(dict(index=idx, msg=msg, prefix=lines[:idx + 1],
-                                                                   impl=tr.ops[idx][1][:1500]))
+    try:
+        found_all = monitors.run_all(tr)
+    except Exception:
+        res["error"] = "monitor: " + traceback.format_exc()[-800:]
+        found_all = {}
+    for pid, found in found_all.items():
+        for (idx, msg) in found[:3]:
+            res["violations"].setdefault(pid, []).append(dict(index=idx, msg=msg, prefix=lines[:idx + 1],
+                                                               impl=tr.ops[idx][1][:1500]))
     cov = collections.Counter()
     phases = set()
     for (line, impl, _m) in tr.ops:
@@ -262,12 +260,10 @@ def run_corpus(files):
             rec.update(op=tr.ops[idx][0][:600], impl=tr.ops[idx][1][:1500], model=(tr.ops[idx][2] or "")[:1500],
                        prefix=lines[:idx + 1])
             res["disagreements"].append(rec)
-        v = monitors.View(tr)
-        for pid, ms in monitors.MONITORS.items():
-            for m in ms:
-                for (idx, msg) in m(v)[:3]:
-                    res["violations"].setdefault(pid, []).append(dict(index=idx, msg=msg, prefix=lines[:idx + 1],
-                                                                       impl=tr.ops[idx][1][:1500]))
+        for pid, found in monitors.run_all(tr).items():
+            for (idx, msg) in found[:3]:
+                res["violations"].setdefault(pid, []).append(dict(index=idx, msg=msg, prefix=lines[:idx + 1],
+                                                                   impl=tr.ops[idx][1][:1500]))
         out.append(res)
     return out
 
@@ -339,11 +335,9 @@ def replay(path):
         print("MODEL", (b or "")[:1200])
     if tr.disagreements:
         print("first disagreement:", {k: v for k, v in tr.disagreements[0].items()})
-    v = monitors.View(tr)
-    for pid, ms in monitors.MONITORS.items():
-        for m in ms:
-            for (idx, msg) in m(v)[:3]:
-                print("MONITOR", pid, "step", idx, msg)
+    for pid, found in monitors.run_all(tr).items():
+        for (idx, msg) in found[:3]:
+            print("MONITOR", pid, "step", idx, msg)
     return 0
 
 
